@@ -10,7 +10,8 @@ EXPLANATION = ("Decides structural clauses of C11, not the digest value: key fra
                "0xD1 (user attribute) + 4-octet length for v4/v6 and nothing for v2/v3; hash_signature_data feeds version, type, public-key and "
                "hash algorithm octets and a 2-octet (v4) / 4-octet (v6) hashed-area count, type + 4-octet time for v2/v3; the trailer is version, "
                "0xFF, 4-octet length (empty for v2/v3); the v6 salt is fed first and its size table equals RFC 9580 Table 23; every sign function "
-               "feeds the same call sequence as its verify twin (same key-frame order). Not decided: the digest value, document canonicalisation.")
+               "feeds the same call sequence as its verify twin (same key-frame order). Not decided: the digest value, document canonicalisation."
+               ' Also: salt sizes / salt-length checks, every hashed subpacket fed, and (shared with C14) the streaming canonicaliser clauses.')
 ASSUMPTIONS = ["Serialize::to_writer of keys and user ids emits the RFC body (C05 decides lengths only)"]
 
 CFG = 'packet::signature::config::SignatureConfig::'
